@@ -105,6 +105,30 @@ Theorem ondisk_recover_restartable : forall s i load k,
 Proof. exact ondisk_recover_restartable_proved. Qed.
 Print Assumptions ondisk_recover_restartable.
 
+(* a received image with an external file (transport.Chunk.save; which chunks
+   fsync the file is regenerated from chunk.go): when the last chunk has been
+   saved -- before FinalizeSnapshot renames the directory and the image is handed
+   to raft -- EVERY file of the image is durably bound to its name and its
+   durable content is the full file *)
+Theorem received_files_durable : forall i n m fl,
+  let fl' := apply_local (recvx_fs i n m) fl in
+  durable_full (FSnap i) fl' /\ durable_full (FOther 1) fl'.
+Proof. exact received_files_durable_proved. Qed.
+Print Assumptions received_files_durable.
+
+(* an on-disk replica's own snapshot at applied index ap (node.doSave ->
+   StateMachine.Save: Sync ; write ; Commit ; release of the previous snapshot;
+   that Save syncs first is regenerated from internal/rsm/statemachine.go): at
+   every crash cut the replica is restartable, i.e. the recorded snapshot's
+   OnDiskIndex never exceeds what the state machine has durably *)
+Theorem ondisk_save_restartable : forall s lr ap k,
+  J (ds_st s) ->
+  (st_rec (ds_st s) = 0 \/ FullAt (st_rec (ds_st s)) (ds_st s) \/ st_rec (ds_st s) <= ds_smd s) ->
+  let '(_, tr, _) := cmd_save_ondisk s lr ap in
+  restart_okb (dstep (drun s (firstn k tr)) (DBase OCrash)) = true.
+Proof. exact ondisk_save_restartable_proved. Qed.
+Print Assumptions ondisk_save_restartable.
+
 (* reachable states satisfy J *)
 Theorem reachable_states_J : forall ord cs s t tr,
   ord_ok ord -> J s -> do_cmds ord s cs = (t, tr) -> allowed_run s tr /\ t = run s tr /\ J t.
@@ -156,4 +180,29 @@ Example disk_demo_shrink_first_not_restartable :
   let '(_, shr, _) := do_cmd ord_id (ds_st disk_demo) (CShrink 5) in
   let tr := DSmRecover 5 :: map DBase shr ++ [DSmSync] in
   restart_okb (dstep (drun disk_demo (firstn 10 tr)) (DBase OCrash)) = false.
+Proof. vm_compute. reflexivity. Qed.
+
+(* an on-disk replica applies entries up to 7 and snapshots itself: 24 operations,
+   restartable at every cut; without the Sync the recorded snapshot is ahead of
+   the state machine after the record *)
+Definition save_demo : dstate := cmd_entries (mkDS init 0 0) 7.
+
+Example save_demo_all_cuts :
+  let '(_, tr, oc) := cmd_save_ondisk save_demo 0 7 in
+  (length tr, oc, forallb (fun k => restart_okb (dstep (drun save_demo (firstn k tr)) (DBase OCrash))) (List.seq 0%nat 26%nat))
+  = (24%nat, Done, true).
+Proof. vm_compute. reflexivity. Qed.
+
+Example save_demo_without_sync_not_restartable :
+  let '(_, tr, _) := cmd_save_ondisk save_demo 0 7 in
+  restart_okb (dstep (drun save_demo (tl tr)) (DBase OCrash)) = false.
+Proof. vm_compute. reflexivity. Qed.
+
+(* a two-file image, main file in 2 chunks: if only the last file were fsynced the
+   snapshot file handed over would be empty after a crash *)
+Example recvx_demo :
+  let s := fst (do_cmds ord_id init [CRecvX 5 2 1; CApply 5]) in
+  (st_rec s, vnames (st_fs (run s [OCrash])),
+   forallb (fun o => files_goodb 5 (d_files o) && ext_fullb (d_files o)) (st_fs (run s [OCrash])))
+  = (5, [DFinal 5], true).
 Proof. vm_compute. reflexivity. Qed.
